@@ -114,12 +114,13 @@ fn expected_value(form: usize, vt: VType) -> Value {
 
 /// the claim read back through a built v4.local token
 fn through_token(key: &str, form: usize, vt: VType) -> Option<Value> {
-    let k = domains::official_key();
+    let wh = Proto::workhorse();
+    let km = domains::key_pool(wh)[0].clone();
     let spec = ClaimSpec { key: key.to_string(), value: expected_value(form, vt), form: if form == 0 { Form::KeyOnly } else if form == 1 { Form::TupleStr } else { Form::TupleString } };
     let ops = vec![BOp::Claim(spec), BOp::Build];
-    let (ev, _) = adapter::with_rng_script(vec![vec![7u8; 32]], || adapter::build_history(Proto::V4L, Layer::Generic, &k, &ops));
+    let (ev, _) = adapter::with_rng_script(vec![vec![7u8; 32]], || adapter::build_history(wh, Layer::Generic, &km.sk, &ops));
     let Some(BEvent::Built(Out::Ok(t))) = ev.last() else { return None };
-    let pe = adapter::parse_history(Proto::V4L, Layer::Generic, false, &[k.clone()], &[t.clone()], &[POp::Parse(0, 0)]);
+    let pe = adapter::parse_history(wh, Layer::Generic, false, &[km.pk.clone()], &[t.clone()], &[POp::Parse(0, 0)]);
     match pe.last() {
         Some(PEvent::Parsed(Out::Ok(v), _)) => Some(v.clone()),
         _ => None,
@@ -371,12 +372,13 @@ pub fn run(tier: &str) -> i32 {
     }
     // a strict string travels verbatim through a token as exp / nbf / iat
     for (key, s) in [("exp", "2999-06-15T12:34:56.123456789+05:30"), ("nbf", "1999-01-01T00:00:00Z"), ("iat", "2026-06-15T23:59:59.5-23:59")] {
-        let k = domains::official_key();
+        let wh = Proto::workhorse();
+        let km = domains::key_pool(wh)[0].clone();
         let ops = vec![BOp::Claim(ClaimSpec::auto(key, json!(s))), BOp::Build];
-        let (ev, _) = adapter::with_rng_script(vec![vec![7u8; 32]], || adapter::build_history(Proto::V4L, Layer::Generic, &k, &ops));
+        let (ev, _) = adapter::with_rng_script(vec![vec![7u8; 32]], || adapter::build_history(wh, Layer::Generic, &km.sk, &ops));
         nacc.executions += 1;
         let ok = match ev.last() {
-            Some(BEvent::Built(Out::Ok(t))) => matches!(adapter::parse_history(Proto::V4L, Layer::Generic, false, &[k.clone()], &[t.clone()], &[POp::Parse(0, 0)]).last(), Some(PEvent::Parsed(Out::Ok(v), _)) if v[key] == json!(s)),
+            Some(BEvent::Built(Out::Ok(t))) => matches!(adapter::parse_history(wh, Layer::Generic, false, &[km.pk.clone()], &[t.clone()], &[POp::Parse(0, 0)]).last(), Some(PEvent::Parsed(Out::Ok(v), _)) if v[key] == json!(s)),
             _ => false,
         };
         if !ok {
